@@ -1802,7 +1802,8 @@ fn c05_family(tier: &str) -> Vec<(String, Instance)> {
             2,
             if thorough { &[(1, 1), (2, 2), (1, 2), (2, 1)] } else { &[(1, 1)] },
         );
-        product("time", &sets, &q, if thorough { &[0, 6, 11] } else { &[0, 6] }, &mut out);
+        // (11 and 25 s: a worker that is still registered although its lifetime has run out)
+        product("time", &sets, &q, if thorough { &[0, 6, 11, 25] } else { &[0, 6, 11] }, &mut out);
     }
 
     // ---- (c) multi-node tasks: groups with interleaved ids, lifetimes, busy workers
